@@ -1246,7 +1246,7 @@ def _select(c, a, b):
     if isinstance(a, E) and isinstance(b, E):
         if a == b:
             return a
-        return alg.Fn("select", c.key(), a, b)
+        return alg.Fn("select", c.astuple(), a, b)
     return Opaque("select of non-E")
 
 
